@@ -5,12 +5,16 @@ from collections import Counter
 
 from .. import harness as H, model as M
 from ..evidence import Run, canon_hash
-from ..gen import build as B, spec as G
+from ..gen import build as B, parse as P, spec as G
 from . import common as C
 
 PID = "C02"
 SHARDS = {"quick": 4, "thorough": 16}
-N = {"quick": 3000, "thorough": 120000}
+N = {"quick": 3600, "thorough": 140000}
+# reasons pandera files under the DATA category (the rest is SCHEMA)
+DATA_REASONS = {"INVALID_TYPE", "DATATYPE_COERCION", "DATAFRAME_CHECK", "CHECK_ERROR", "DUPLICATES",
+                "SERIES_CONTAINS_DUPLICATES", "ADD_MISSING_COLUMN_NO_DEFAULT", "MISMATCH_INDEX",
+                "PARSER_ERROR"}
 ROW_REASONS = {"SERIES_CONTAINS_NULLS", "SERIES_CONTAINS_DUPLICATES",
                "DATAFRAME_CHECK", "DUPLICATES"}
 
@@ -19,7 +23,12 @@ def new_run():
     return Run(PID, "exploration",
                "cases = (schema spec, table) from pvm.gen.spec biased to several "
                "simultaneous violations; each is validated eagerly and lazily by "
-               "the real code (pandas always, polars for backend-neutral specs); "
+               "the real code (pandas always, polars for backend-neutral specs); one case in "
+               "seven runs relations (i) (ii) (iv) under config_context(validation_depth="
+               "SCHEMA_ONLY / DATA_ONLY) on a workload with parsing options and injected "
+               "parser-stage failures (uncoercible value, unfillable default, missing column "
+               "without default, Index schema on a MultiIndex); an internal exception on one "
+               "side only is a raise mismatch; falsy labels and dtype-only schemas as in C01; "
                "non-trivial = the data is rejected (there is a report to check); "
                "distinct = canonical hash of (backend, spec, table)",
                ["cell-exact comparison only where pvm/model.py is exact "
@@ -36,7 +45,7 @@ def model_cells(v, spec, table):
             continue
         if e.reason == "DUPLICATES":
             uq = spec["unique"]
-            groups = [uq] if all(isinstance(x, str) for x in uq) else uq
+            groups = [uq] if not any(isinstance(x, (list, tuple)) for x in uq) else uq
             names = {c["name"] for c in table["columns"]}
             for g in groups:
                 subset = [x for x in g if x in names]
@@ -70,6 +79,15 @@ def mi_key(t):
     return tuple(out)
 
 
+def hv(x):
+    """Hashable stand-in of a reported value (a broken report may carry dicts)."""
+    try:
+        hash(x)
+        return x
+    except TypeError:
+        return ("unhashable", repr(x)[:200])
+
+
 def impl_cells(out, table, multi_index, l2p):
     rows, scalars = {}, Counter()
     for e in out.errors:
@@ -83,6 +101,7 @@ def impl_cells(out, table, multi_index, l2p):
             k = (e.reason, e.column, e.check_index, where)
         s = rows.setdefault(k, set())
         for label, val, col in e.cells:
+            label, val, col = hv(label), hv(val), hv(col)
             if where == "index" and e.context == "Index":
                 pos = label              # positions after reset_index(drop=True)
                 col = e.column
@@ -127,6 +146,106 @@ def classify(spec, kind, detail):
     return None
 
 
+
+def classify_exc(spec, table, backend, oe, ol):
+    """Mechanism of 'one of the two runs leaked an internal exception while the
+    other one raised its documented error / returned'."""
+    exc = oe.exc if oe.kind == "exc" else ol.exc
+    sig = H.exc_sig(exc)
+    lev = (table.get("index") or {}).get("levels") or []
+    if sig == "ValueError@backends/pandas/error_formatters.py:reshape_failure_cases" \
+            and "cannot insert" in str(exc) and len(lev) == 1 and lev[0]["name"] is not None \
+            and not isinstance(lev[0]["name"], str) and lev[0]["name"] == 0:
+        # wide failure cases (joint uniqueness / dataframe-level check) are
+        # unstacked into an unnamed Series; reset_index() collides with an index
+        # level NAMED 0.  Eagerly an earlier error is raised first.
+        return "reshape_failure_cases-index-named-0-collides-on-reset_index"
+    if sig == "KeyError@backends/pandas/components.py:validate" and spec["kind"] == "frame" \
+            and C.has_dup_labels(table):
+        names = [c["name"] for c in table["columns"]]
+        if any(fs.get("parser") and names.count(fs["name"]) > 1 for fs in spec["columns"]):
+            # the output of a column parser is written back with
+            # check_obj[label] = <one-column frame> although the label is repeated
+            return "column-parser-output-assigned-back-by-repeated-label"
+    return None
+
+
+def one_sided_exception(run, spec, table, oe, ol, backend, tag="", depth=None):
+    """raises(lazy) <=> raises(eager) is about the *documented* channel: when one
+    run ends in SchemaError / SchemaErrors (or returns) and the other one leaks
+    an internal exception, there is no collected report for the eager error (or
+    no eager error for the report).  Both runs leaking is C06's business."""
+    if oe.kind == "exc" and ol.kind == "exc":
+        run.count(tag + "internal_exception_on_both_sides(C06)")
+        return
+    sig = H.exc_sig(oe.exc if oe.kind == "exc" else ol.exc)
+    if sig.endswith(("parsers.py:apply_field", "parsers.py:apply_table")):
+        # the exception was raised by the harness' own parser function (abs /
+        # clip on a column whose coercion had failed and was collected lazily):
+        # what pandera owes a *user* parser that raises is not documented
+        run.count(tag + "undecided:user_parser_function_raised")
+        return
+    run.count(tag + "i:raise_equivalence_checked")
+    run.count(tag + "i:one_sided_internal_exception")
+    run.violation("lazy-eager-raise-mismatch",
+                  C.brief(spec, table, {"backend": backend, "depth": depth,
+                                        "eager": oe.kind, "lazy": ol.kind,
+                                        "eager_exc": repr(oe.exc)[:300], "lazy_exc": repr(ol.exc)[:300],
+                                        "sig": H.exc_sig(oe.exc if oe.kind == "exc" else ol.exc)}),
+                  classify_exc(spec, table, backend, oe, ol))
+
+
+def relations(run, spec, table, oe, ol, backend, tag="", depth=None):
+    """(i) raise equivalence, (ii) eager error among the lazy errors, (iv) error
+    counts == collected errors per reason.  Returns True when both runs reject
+    through the documented channel (there is a report to look at)."""
+    if "exc" in (oe.kind, ol.kind):
+        one_sided_exception(run, spec, table, oe, ol, backend, tag, depth)
+        return False
+    extra = {"backend": backend}
+    if depth:
+        extra["depth"] = depth
+    run.count(tag + "i:raise_equivalence_checked")
+    if oe.accepted != ol.accepted:
+        run.violation("lazy-eager-raise-mismatch",
+                      C.brief(spec, table, dict(extra, eager=oe.kind, lazy=ol.kind,
+                                                eager_reasons=oe.reasons(), lazy_reasons=ol.reasons())),
+                      None)
+        return False
+    if oe.accepted:
+        run.count(tag + "both_accept")
+        return False
+    run.count(tag + "both_reject")
+    e0 = oe.errors[0]
+    run.count(tag + "ii:eager_in_lazy_checked")
+
+    def same(e):
+        # lazy MultiIndex errors are re-wrapped with the MultiIndex as schema
+        # context (column None); reason, check and check index identify them
+        return (e.reason, e.check_index, e.check) == (e0.reason, e0.check_index, e0.check) \
+            and (e.column == e0.column or e.context == "MultiIndex")
+    if not any(same(e) for e in ol.errors):
+        run.violation("eager-error-not-in-lazy-errors",
+                      C.brief(spec, table, dict(extra, eager=(e0.reason, e0.column, e0.check_index),
+                                                lazy=[(e.reason, e.column, e.check_index) for e in ol.errors])),
+                      None)
+    run.count(tag + "iv:error_counts_checked")
+    cnt = Counter(e.reason for e in ol.errors)
+    counts = {k: v_ for k, v_ in (ol.error_counts or {}).items() if v_}
+    if dict(cnt) != counts or sum(counts.values()) != len(ol.errors):
+        run.violation("error-counts-differ-from-collected-errors",
+                      C.brief(spec, table, dict(extra, counts=ol.error_counts, collected=dict(cnt),
+                                                eager_reason=e0.reason)), None)
+    if depth:
+        for r in cnt:
+            run.count(f"{tag}collected_reason:{r}")
+        other = [r for r in cnt if (r in DATA_REASONS) == (depth == "SCHEMA_ONLY")]
+        if other:
+            # an error of the category the depth leaves out was collected
+            # anyway (the parsing stage is not depth-scoped)
+            run.count(f"{tag}other_category_error_collected")
+    return True
+
 def judge_pandas(run, spec, table, muts):
     v = M.evaluate(spec, table)
     try:
@@ -141,39 +260,10 @@ def judge_pandas(run, spec, table, muts):
              sample={"backend": "pandas", "spec": spec, "table": table,
                      "eager": oe.kind, "lazy": ol.kind,
                      "lazy_errors": [(e.reason, e.column, e.check_index) for e in ol.errors]})
-    if "exc" in (oe.kind, ol.kind):
-        run.count("internal_exception(C06)")
+    # (i) (ii) (iv)
+    if not relations(run, spec, table, oe, ol, "pandas"):
         return
-    # (i)
-    run.count("i:raise_equivalence_checked")
-    if oe.accepted != ol.accepted:
-        run.violation("lazy-eager-raise-mismatch",
-                      C.brief(spec, table, {"eager": oe.kind, "lazy": ol.kind}), None)
-        return
-    if oe.accepted:
-        run.count("both_accept")
-        return
-    run.count("both_reject")
     run.count(f"n_lazy_errors:{min(len(ol.errors), 6)}")
-    # (ii) eager error is one of the lazy errors
-    e0 = oe.errors[0]
-    run.count("ii:eager_in_lazy_checked")
-    def same(e):
-        # lazy MultiIndex errors are re-wrapped with the MultiIndex as schema
-        # context (column None); reason, check and check index identify them
-        return (e.reason, e.check_index, e.check) == (e0.reason, e0.check_index, e0.check) \
-            and (e.column == e0.column or e.context == "MultiIndex")
-    if not any(same(e) for e in ol.errors):
-        run.violation("eager-error-not-in-lazy-errors",
-                      C.brief(spec, table, {"eager": (e0.reason, e0.column, e0.check_index),
-                                            "lazy": [(e.reason, e.column, e.check_index) for e in ol.errors]}),
-                      None)
-    # (iv) counts
-    run.count("iv:error_counts_checked")
-    cnt = Counter(e.reason for e in ol.errors)
-    if dict(cnt) != {k: v_ for k, v_ in (ol.error_counts or {}).items() if v_}:
-        run.violation("error-counts-differ-from-collected-errors",
-                      C.brief(spec, table, {"counts": ol.error_counts, "collected": dict(cnt)}), None)
     # (iii) exact cells
     if v.accept is None or not v.exact or C.has_dup_labels(table) or v.accept:
         run.count("iii:skipped_not_exact")
@@ -254,30 +344,8 @@ def judge_polars(run, spec, table, muts):
     key = canon_hash(["polars", spec, table])
     run.case(key, not oe.accepted and oe.kind != "exc",
              sample=None)
-    if "exc" in (oe.kind, ol.kind):
-        run.count("polars:internal_exception(C06)")
+    if not relations(run, spec, table, oe, ol, "polars", tag="polars:"):
         return
-    run.count("polars:i:raise_equivalence_checked")
-    if oe.accepted != ol.accepted:
-        run.violation("lazy-eager-raise-mismatch",
-                      C.brief(spec, table, {"backend": "polars", "eager": oe.kind, "lazy": ol.kind}), None)
-        return
-    if oe.accepted:
-        return
-    e0 = oe.errors[0]
-    run.count("polars:ii:eager_in_lazy_checked")
-    if not any((e.reason, e.column, e.check_index) == (e0.reason, e0.column, e0.check_index)
-               for e in ol.errors):
-        run.violation("eager-error-not-in-lazy-errors",
-                      C.brief(spec, table, {"backend": "polars",
-                                            "eager": (e0.reason, e0.column, e0.check_index),
-                                            "lazy": [(e.reason, e.column, e.check_index) for e in ol.errors]}), None)
-    cnt = Counter(e.reason for e in ol.errors)
-    run.count("polars:iv:error_counts_checked")
-    if dict(cnt) != {k: v_ for k, v_ in (ol.error_counts or {}).items() if v_}:
-        run.violation("error-counts-differ-from-collected-errors",
-                      C.brief(spec, table, {"backend": "polars", "counts": ol.error_counts,
-                                            "collected": dict(cnt)}), None)
     # (iii) by row position: {(column, pos)} of row-level failures
     if v.accept is None or not v.exact or v.accept:
         return
@@ -297,15 +365,65 @@ def judge_polars(run, spec, table, muts):
                                             "reported_but_conforming": sorted(map(repr, got - exp))}), None)
 
 
+def judge_depth(run, rng, depth, polars):
+    """Relations (i) (ii) (iv) under a non-default validation depth.  The
+    workload carries parsing options and, in most cases, a failure of the
+    parsing stage (which is not depth-scoped), so that errors of the category
+    the depth leaves out are still collected."""
+    from pandera.config import ValidationDepth, config_context
+    spec, table, opts, muts = P.gen_parse_case(rng, neutral=polars, allow_drop=False, mutate_p=0.6,
+                                               kind="frame" if polars else None, labels_p=0.2)
+    inj = P.inject_parser_failures(rng, spec, table, neutral=polars) if rng.random() < 0.7 else []
+    if polars and C.has_dup_labels(table):
+        return
+    backend = "polars" if polars else "pandas"
+    try:
+        if polars:
+            data = B.polars_table(table)
+            s1, s2 = B.polars_schema(spec), B.polars_schema(spec)
+        else:
+            data = B.pandas_table(spec, table)
+            s1, s2 = B.pandas_schema(spec), B.pandas_schema(spec)
+    except Exception as e:
+        run.count("build_error_depth:" + type(e).__name__)
+        return
+    with config_context(validation_depth=getattr(ValidationDepth, depth)):
+        oe = H.run_validate(s1, data)
+        ol = H.run_validate(s2, data, lazy=True)
+    run.case(canon_hash([backend, depth, spec, table]), not oe.accepted and oe.kind != "exc",
+             sample={"backend": backend, "depth": depth, "spec": spec, "table": table, "options": opts,
+                     "injected": inj, "eager": oe.kind, "lazy": ol.kind,
+                     "lazy_errors": [(e.reason, e.column, e.check_index) for e in ol.errors]}
+             if not polars and inj else None)
+    for t in inj:
+        run.count(f"depth:injected:{t}")
+    if "falsy_labels" in opts:
+        run.count("labels:falsy_label_case")
+    tag = f"depth:{depth}:" + ("polars:" if polars else "")
+    relations(run, spec, table, oe, ol, backend, tag=tag, depth=depth)
+
+
 def run(run, ctx):
     n = N[ctx.tier]
     for i in ctx.cases(n):
         rng = ctx.rng(PID, i)
-        if i % 4 == 3:
+        if i % 7 == 5:
+            judge_depth(run, rng, "SCHEMA_ONLY" if (i // 7) % 2 == 0 else "DATA_ONLY",
+                        polars=(i // 14) % 4 == 3)
+        elif i % 4 == 3:
             spec = G.gen_spec(rng, neutral=True)
             table = G.gen_table(rng, spec)
             muts = G.mutate(rng, spec, table, k=rng.choice([1, 2, 3]))
+            C.count_labels(run, G.relabel(rng, spec, table, p=0.15, polars=True))
             judge_polars(run, spec, table, muts)
+        elif i % 20 == 2:
+            # only a dataframe-level dtype, labels of any type
+            spec, table, muts = G.gen_dtype_only_case(rng)
+            if table["columns"] and table["columns"][0]["values"] and rng.random() < 0.5:
+                muts += G.mutate(rng, spec, table, k=1)
+            C.count_labels(run, G.relabel(rng, spec, table, p=0.7))
+            run.count("dtype_only_schema")
+            judge_pandas(run, spec, table, muts)
         else:
             spec = G.gen_spec(rng)
             if spec["kind"] == "frame" and i % 8 == 0:
@@ -325,12 +443,27 @@ def run(run, ctx):
                 n = len(table["columns"][0]["values"])
                 table["index"] = {"levels": [{"name": None, "phys": "object",
                                               "values": [rng.choice(["x", "y"]) for _ in range(n)]}]}
+            C.count_labels(run, G.relabel(rng, spec, table, p=0.3))
             judge_pandas(run, spec, table, muts)
+        C.report_context_leaks(run, {"case": i})
+    C.finish_context_monitor(run)
 
 
 def finalize(run, ctx):
     for name, m in [("i:raise_equivalence_checked", 400), ("ii:eager_in_lazy_checked", 200),
                     ("iv:error_counts_checked", 200), ("iii:cells_compared", 100),
                     ("polars:i:raise_equivalence_checked", 100),
-                    ("polars:iii:row_positions_compared", 30)]:
+                    ("polars:iii:row_positions_compared", 30),
+                    # relations under a non-default validation depth
+                    ("depth:SCHEMA_ONLY:i:raise_equivalence_checked", 45),
+                    ("depth:DATA_ONLY:i:raise_equivalence_checked", 45),
+                    ("depth:SCHEMA_ONLY:iv:error_counts_checked", 20),
+                    ("depth:DATA_ONLY:iv:error_counts_checked", 20),
+                    ("depth:SCHEMA_ONLY:other_category_error_collected", 15),
+                    ("depth:SCHEMA_ONLY:collected_reason:DATATYPE_COERCION", 9),
+                    ("depth:SCHEMA_ONLY:collected_reason:ADD_MISSING_COLUMN_NO_DEFAULT", 6),
+                    ("depth:SCHEMA_ONLY:polars:i:raise_equivalence_checked", 10),
+                    ("depth:DATA_ONLY:polars:i:raise_equivalence_checked", 10),
+                    ("labels:falsy_label_case", 190), ("dtype_only_schema", 35),
+                    ("config_monitor:validate_calls_bracketed", 1500)]:
         run.floors[name] = m
